@@ -358,8 +358,11 @@ class Harness(object):
 
     def rel(ip, lock):
       if check_release:
+        for pre in (prefix if isinstance(prefix, (list, tuple)) else [prefix]):
+          for l, f in hs.I_cache():
+            ip.ctx.check("%s/I_cache/%s" % (pre, l), f, kind='lock_inv', assume_after=False)
         for l, f in hs.I_cache():
-          ip.ctx.check("%s/I_cache/%s" % (prefix, l), f, kind='lock_inv')
+          ip.ctx.assume(f)
       if on_release:
         on_release(ip)
     self.ctx.hooks['lock_acquire'] = acq
@@ -414,5 +417,43 @@ def enable_rely_R(hs):
     hs.cache.fields['size'] = size1
     hs.state.attrs['cacheTooFull'] = flag1
     hs.new_metrics.term = z3.Concat(nm0, ext)
+  ctx.hooks['yield_point'] = rely
+  hs.rely = rely
+
+
+def enable_rely_W(hs):
+  """The function under contract runs on the reactor thread R.  Between its atomic steps the
+  writer thread W may run pop() / _check_available_space() steps.  G_W* (proved of pop in the
+  C02/pop/* obligations): whole metrics are removed and the metrics that remain keep their
+  datapoints; size only shrinks; cacheTooFull may only turn False; new_metrics loses elements at
+  its left end.  I_cache is assumed only when the lock is acquired."""
+  ctx = hs.ctx
+  hs.cache.shared = True
+  hs.state.shared = True
+  hs.new_metrics.shared = True
+
+  def rely(ip, obj):
+    d = hs.data
+    old = d.snapshot()
+    size0 = hs.cache.fields['size']
+    flag0 = hs.state.attrs['cacheTooFull']
+    nm0 = hs.new_metrics.term
+    d.fresh_state(ctx, 'data')
+    size1 = ctx.fresh(z3.IntSort(), 'size')
+    flag1 = ctx.fresh(z3.BoolSort(), 'cacheTooFull')
+    drop = ctx.fresh(z3.IntSort(), 'nm_dropped')
+    m = z3.Const('m?', Atom)
+    flag0b = flag0 if z3.is_expr(flag0) else z3.BoolVal(bool(flag0))
+    for f in [
+      z3.ForAll([m], z3.Implies(z3.Select(d.keys, m),
+                                z3.And(z3.Select(old.keys, m), z3.Select(d.inner, m) == z3.Select(old.inner, m)))),
+      d.card <= old.card, d.total <= old.total, size1 <= size0,
+      z3.Implies(flag1, flag0b),
+      z3.And(0 <= drop, drop <= z3.Length(nm0)),
+    ]:
+      ctx.assume(f)
+    hs.cache.fields['size'] = size1
+    hs.state.attrs['cacheTooFull'] = flag1
+    hs.new_metrics.term = z3.SubSeq(nm0, drop, z3.Length(nm0) - drop)
   ctx.hooks['yield_point'] = rely
   hs.rely = rely
